@@ -53,6 +53,11 @@ func computeChange(target *targetInfo) (*configapi.PathValues, error) {
 	}
 	//deletes
 	for _, path := range target.removes {
+		if _, updated := newChanges[path]; updated {
+			// The deletes of a request take effect before its updates: a path the request both deletes and
+			// updates ends up updated
+			continue
+		}
 		deleteValue, err := valueutils.NewChangeValue(path, *configapi.NewTypedValueEmpty(), true)
 		if err != nil {
 			return &configapi.PathValues{}, err
